@@ -45,10 +45,13 @@ ABSORBED = ('const', '<NoValue>', 'absorbed')   # ... or is dropped when the par
 
 class Lattice(object):
     """Classes below 'Any' (multiple inheritance allowed); a value is an
-    instance of exactly one class, or null (class None)."""
+    instance of exactly one class, or null (class None).  A union type
+    (PythonType with a tuple of classes) accepts what any member accepts and is
+    neither more nor less specific than anything."""
 
-    def __init__(self, parents, values):
+    def __init__(self, parents, values, unions=None):
         self.values = dict(values)
+        self.unions = dict(unions or {})
         self.ancestors = {'Any': frozenset()}
         for c in parents:
             seen, todo = set(['Any']), [c]
@@ -66,6 +69,8 @@ class Lattice(object):
         cls = self.values[vname]
         if cls is None:
             return nullable
+        if ptype in self.unions:
+            return any(m == cls or self.strict_sub(cls, m) for m in self.unions[ptype])
         return ptype == cls or self.strict_sub(cls, ptype)
 
 
